@@ -6,6 +6,10 @@ ids = [json.loads(l)['id'] for l in open(os.path.join(ROOT, 'properties.jsonl'))
 
 FAMILY = "bounded-exhaustive exploration of real-code executions against a reference model (model-checking family)"
 CHECKS = {
+ "C01": dict(cat="exploration",
+   text="The full product of 12 Proxy-Authorization values x 7 request kinds x 3 authenticators x 3 SNI policies x {HTTP/1.1, HTTP/2} (1512 sessions) and every history of 2 (quick) / 2-3 (thorough) requests over 4 headers x 3 kinds on one HTTP/2 session, sequential and pipelined, through the real Core::on_tunnel_request over an in-memory transport with connect(2)/getaddrinfo interposed. Oracle: independent authorisation table; refused => 407 + Basic challenge and no egress at all; authorised => not 407 and exactly the named destination contacted; per request, never per session.",
+   note="HTTP/3 not driven. With no credentials configured the statement is silent (only 'refused => no egress' is checked). A rejected SNI label closes the connection (any/no answer accepted, egress not).",
+   tech="exhaustive decision-table x bounded request-history enumeration on the real accept path with syscall interposition"),
  "C02": dict(cat="model_checking",
    text="Stateless exploration of the production DuplexPipe::exchange driven as a single harness-polled future on four scripted endpoints under a paused clock: (I) every endpoint call is a choice point (deliver/hold/error, accept all/one byte/nothing, ready/hold) and all choice sequences with <=3 (quick) / <=6-7 (thorough) deviations are executed; (II) all interleavings of {deliver left item, deliver right item, advance clock by T/2+1ms} so that idle-timer expirations cancel and restart the copy loops at every point, with <=2 / <=5 sink deviations and error injection on top. Oracle: two byte queues (prefix, no loss/dup/reorder), credit == forwarded == metrics, EOF only after the last byte, clean end iff nothing failed, an injected failure ends the exchange in the same poll, no stall, no self-wake spin.",
    note="Scripted endpoints model the real ones where the pipe depends on unspecified behaviour (end of stream is reported again on re-read; a repeated eof() is ignored). HTTP/3 endpoints are not driven. Real H1/H2/TCP endpoints are exercised by the door-based checks.",
